@@ -16,6 +16,8 @@ import (
 
 // tryReplay: concretising a solver model into Go values is not implemented (inputs of the functions under contract
 // are heap structures; models of failed obligations are rare because failed obligations are mostly quantified).
+var extraOverlay map[string][]byte
+
 func tryReplay(cx *Ctx, prop string, ur *UnitResult, r *OblResult, replayPath string) bool {
 	return false
 }
@@ -112,6 +114,14 @@ func goTestOverlay(repo, pkgDir, runName string, files map[string]string, env ma
 	ov := map[string]map[string]string{"Replace": {}}
 	for dst, src := range files {
 		ov["Replace"][filepath.Join(repo, pkgDir, dst)] = src
+	}
+	// a source overlay given to `govc check --overlay` (development aid) also applies to the executed tests
+	k := 0
+	for orig, content := range extraOverlay {
+		k++
+		f := filepath.Join(tmp, fmt.Sprintf("ov%d.go", k))
+		os.WriteFile(f, content, 0o644)
+		ov["Replace"][orig] = f
 	}
 	b, _ := json.Marshal(ov)
 	ovf := filepath.Join(tmp, "overlay.json")
